@@ -20,18 +20,19 @@ FLOOR_CALLS = 1400
 SHARED = {
     "C01": [("C15", ("C15.S1", "C15.S3", "C15.S4", "C15.S5", "C15.S6"), None, "the polygon that must contain the point is produced through the inverse face projection"),
             ("C19", ("C19.A5",), None, "longitudes that differ by whole turns (and probes across the antimeridian) name the same point only if every wrap moves by the full period")],
-    "C02": [("C01", ("C01.R1", "C01.R2", "C01.R3", "C01.R4", "C01.R5"), None, "a point inside a cell's reported polygon maps back to that cell only if the lookup returns a cell of the asked resolution accepted by the exact containment test evaluated at the query point itself"),
+    "C02": [("C01", ("C01.R1", "C01.R2", "C01.R3", "C01.R4", "C01.R5", "C01.R7"), None, "a point inside a cell's reported polygon maps back to that cell only if the lookup returns a cell of the asked resolution accepted by the exact containment test evaluated at the query point itself"),
             ("C15", ("C15.S1", "C15.S3", "C15.S4", "C15.S5", "C15.S6"), None, "the reported centre and boundary come from the inverse face projection, the lookup from the forward one")],
     "C04": [("C15", ("C15.S1", "C15.S3", "C15.S4", "C15.S5", "C15.S6"), None, "cell areas are equal only if the boundary is unprojected with the matching spherical/squashed triangle and an accurate angle helper")],
     "C06": [("C02", ("C02.R2",), None, "IDs keep their meaning only if lookup and geometry use the same quintant/segment relabelling"),
             ("C05", ("C05.R4",), None, "stored IDs keep their meaning only if the bit layout is the documented one"),
-            ("C18", ("C18.D2", "C18.D3", "C18.D4", "C18.D5"), None, "the face frame, the nearest-face choice and the quintant relabelling define which ID a point gets"),
+            ("C18", ("C18.D2", "C18.D3", "C18.D4", "C18.D5", "C18.D6"), None, "the face frame, the nearest-face choice and the quintant relabelling define which ID a point gets"),
             ("C17", ("C17.H",), None, "the curve tables define which ID a point gets within a quintant")],
     "C08": [("C20", ("C20.L3",), None, "sibling detection in compact relies on the stride between siblings")],
     "C09": [("C07", ("C07.T2", "C07.T3"), None, "uncompact delegates to cell_to_children, whose fan-out and bit placement decide the descendants")],
     "C11": [("C04", ("C04.R1",), None, "the ring has vertices*n points only if it is built from the length-exact split pentagon"),
             ("C19", ("C19.A5",), None, "the ring stays within a 180-degree window only if each unwrapping step is a whole turn")],
     "C17": [("C14", ("C14.O",), ("a5::core::hilbert::", "a5::core::tiling::"), "the position<->cell maps are total for depths 1..29 only if no index/overflow site in the curve and tiling code can fail")],
+    "C18": [("C19", ("C19.A3",), None, "the ring of faces sits at the documented 93-degree longitude offset only if that offset is applied, in degrees, with opposite signs on the way in and out")],
     "C20": [("C07", ("C07.T3", "C07.T4"), None, "descendants stay inside their ancestor's ID interval only if children are placed two bits per level below the parent's bits, contiguously"),
             ("C14", ("C14.C",), "canonical:cell_to_", "ancestors and descendants keep the layout only if every hierarchy result is a serialize() output (no hand-assembled IDs)")],
     "C07": [("C14", ("C14.C",), "canonical:cell_to_", "one consistent tree needs canonical IDs from both hierarchy functions")],
